@@ -63,6 +63,17 @@ func checkFix(scen string, in In) (vs []*mc.Violation, accepted bool) {
 		if r2 := d2.String(); r2 != r {
 			vs = append(vs, mc.V(scen, "fixpoint-in-one-step", in, r, r2, feats...))
 		}
+		// rendering is repeatable and does not change the value; what fmt derives from String() is the same text, for the
+		// value and for a pointer to it
+		if again := d.String(); again != r || gen.CanonDep(d) != c1 {
+			vs = append(vs, mc.V(scen, "fixpoint-in-one-step", in, r, fmt.Sprintf("rendered a second time: %q (value now %s)", again, gen.CanonDep(d)), feats...))
+		}
+		for _, g := range []string{fmt.Sprintf("%v", d), fmt.Sprintf("%s", *d), fmt.Sprint(d)} {
+			if g != r {
+				vs = append(vs, mc.V(scen, "rendering-accepted", in, fmt.Sprintf("fmt renders the field as String() does: %q", r), fmt.Sprintf("%q", g), feats...))
+				break
+			}
+		}
 		// the same through the control marshalling interface
 		m, err := d.MarshalControl()
 		d3 := &dependency.Dependency{}
